@@ -75,7 +75,8 @@ Definition cnf_projection_ok (M : cpmodel) (captured : option cnf) : bool :=
   | Some f =>
       let nv := Z.max (max_lit f) (m_next M - 1) in
       let decs := map (fun m => decode_all m (m_vars M)) (all_models nv f) in
-      forallb (fun d => match d with
+      forallb (forallb (fun l => negb (l =? 0))) f
+      && forallb (fun d => match d with
                         | Some xs => forallb (holdsb (asgn_of (m_vars M) xs)) (m_cons M)
                                      && zl_mem (named_only (m_vars M) xs) sols
                         | None => false end) decs
